@@ -53,6 +53,9 @@ type Loaded struct {
 	Overlay         map[string][]byte
 	OverlayRealPath map[string]string // virtual -> real
 	buildMu         sync.Mutex
+	AllPkgs         map[string]*packages.Package
+	instrOnce       sync.Once
+	instr           *Instrumented
 	repo            string
 }
 
@@ -168,6 +171,8 @@ func Load(repo, verif string, prop string) (*Loaded, error) {
 	for _, p := range prog.AllPackages() {
 		L.Pkgs[p.Pkg.Path()] = p
 	}
+	L.AllPkgs = map[string]*packages.Package{}
+	packages.Visit(initial, nil, func(p *packages.Package) { L.AllPkgs[p.PkgPath] = p })
 	// harness discovery from directives
 	for i, ip := range initial {
 		sp := pkgs[i]
@@ -288,4 +293,24 @@ func (L *Loaded) posStr(p token.Pos) string {
 		f = rel
 	}
 	return fmt.Sprintf("%s:%d", f, ps.Line)
+}
+
+// Instr returns the (lazily computed, read-only) instrumentation analysis.
+func (L *Loaded) Instr() *Instrumented {
+	L.instrOnce.Do(func() { L.instr = Instrument(L) })
+	return L.instr
+}
+
+var fileCache sync.Map
+
+func readFileCached(name string) ([]byte, error) {
+	if b, ok := fileCache.Load(name); ok {
+		return b.([]byte), nil
+	}
+	b, err := os.ReadFile(name)
+	if err != nil {
+		return nil, err
+	}
+	fileCache.Store(name, b)
+	return b, nil
 }
